@@ -551,8 +551,13 @@ static void run_frame(struct item *f, bool trace)
     tsan_check(tsan_before);
 #endif
     if (g_pos < f->len) {
-        fatal("nondeterministic replay: execution ended after %d points, prefix has %d",
-              g_pos, f->len);
+        char pre[400];
+        int l = 0;
+        for (int i = 0; i < f->len && l < (int)sizeof pre - 8; i++) {
+            l += snprintf(pre + l, sizeof pre - (size_t)l, "%s%d", i ? "," : "", (int)f->choice[i]);
+        }
+        fatal("nondeterministic replay: execution ended after %d points, prefix has %d (prefix %s)",
+              g_pos, f->len, pre);
     }
     f->running = 0;
     if (g_w >= 0) {
